@@ -42,8 +42,8 @@ EVDIR = os.path.join(VERIF, "evidence") if TAG == "main" else os.path.join(BUILD
 COMMON_TRUSTED = [
     "Coq 8.16.1 kernel incl. vm_compute (no native_compute); no axioms (Print Assumptions per theorem)",
     "harness/gen_dump.c + gcc: coq/Gen.v is the graph of the compiled tables/constants of the current sources",
-    "tools/cleaf.py + clang front end (typed AST): coq/GenLeaf.v is the translation of 28 leaf functions (bit-field extractors, weighted level, "
-    "rdsparser_ct_init and getters), proved equal to the model's functions for all arguments in the C ranges; integer conversions wrap, signed overflow assumed absent",
+    "tools/cleaf.py + clang front end (typed AST): coq/GenLeaf.v is the translation of 30 leaf functions (bit-field extractors, weighted level, "
+    "AF bitmap get/set, rdsparser_ct_init and getters), proved equal to the model's functions for all arguments in the C ranges; integer conversions wrap, signed overflow assumed absent",
     "hand-written Gallina model coq/Model.v for everything else, tied to the code by executing model (extracted) and implementation on the same scripts",
     "extraction: ExtrOcamlBasic only (bool/option/list/prod/unit/sumbool to OCaml natives), no Extract Constant; OCaml 4.13.1; "
     "extracted: step_u step_n init_state snap_of parse_string_result observer_u observer_n dontcare_equiv decode hex_ok cfg_of step_reent_u step_reent_n rtab_of",
